@@ -12,6 +12,11 @@
 (* ws = what is on disk; tgt = the target index (built and hashed from such  *)
 (* a tree); avail = the contents the target's storage can supply.           *)
 (*                                                                         *)
+(* The target index is given either entry by entry (built and hashed) or as  *)
+(* ONE unloaded entry pointing at a directory object that compare() expands   *)
+(* from object storage - then tgt is what a directory object can say: files,  *)
+(* the directories they need, no executable bit.                             *)
+(*                                                                         *)
 (* compare() yields, in the breadth-first order of the index diff, the lists *)
 (* files_delete, dirs_delete, dirs_create, files_create, files_chmod;        *)
 (* apply() runs: delete files; rmdir each listed directory (silently failing *)
